@@ -4,7 +4,8 @@ SPEC = {
     "components": {"1": "work-unit machine (Gql/Exec.v) under the scripted schedule vs Execute",
                    "2": "eval_ref (Gql/Ref.v) vs Execute",
                    "3": "model cannot parse the query / out of fuel / query or data does not fit the schema",
-                   "4": "model: eval_ref (parse q) differs from eval_ref (parse (prune q))"},
+                   "4": "model: eval_ref (parse q) differs from eval_ref (parse (prune q))",
+                   "6": "the selection-set identifiers the harness assigned do not satisfy ids_wf"},
     "corr_name": "Gql (flatten, eval_ref, work-unit machine with batching and splitting) vs graphql.Parse / PrepareQuery / Execute under every scheduler and execution mode",
     "coq_modules": ["Gql.Check"],
     "trusted_base": [
